@@ -96,6 +96,11 @@ def implied(cond: ast.AST, truth: bool, fold=None) -> Dict[str, Constraint]:
         op = cond.ops[0]
         rhs = cond.comparators[0]
         cs = _consts(rhs)
+        if v is None and cs is not None:
+            # `tok.value == "}"`: the text of a single-character punctuation token is its type, and no other token has that text
+            ch = attr_chain(cond.left)
+            if ch and len(ch) == 2 and ch[1] == "value" and all(len(c_) == 1 and not c_.isalnum() and c_ not in "_\"' \t\n" for c_ in cs):
+                v = ch[0]
         if cs is None and fold is not None:
             cs = fold(rhs)
         if v is not None and cs is not None:
